@@ -363,6 +363,18 @@ def work_options(_):
                         continue
                     if judge(P, "options", res, case, 2):
                         res.nt += 1
+    # measured parameters of modes with one- and two-digit indices (symbol conversion on the load path)
+    for m in (0, 1, 2, 9, 10, 11, 12):
+        case = {"kind": "options", "measured_index": m}
+        P = sf.Program(13)
+        with P.context as q:
+            ops.MeasureHomodyne(0.0) | q[1]
+            if m != 1:
+                ops.MeasureHomodyne(0.0) | q[m]
+            ops.Dgate(0.5 * q[m].par + 0.1, 0.2) | q[3]
+            ops.Zgate(q[m].par) | q[4]
+        if judge(P, f"measured-index-{'two' if m >= 10 else 'one'}-digit", res, case, 13):
+            res.nt += 1
     # generate_code
     for seq in (("S0", "BS01", "MF"), ("S1.H", "BS10"), ("Coh0", "MX0", "D1(m0)")):
         res.n += 1
